@@ -718,11 +718,14 @@ func (r *runner) run() {
 			mark := len(r.trace)
 			ms := 5000
 			expired := false
+			keepAlive := false
 			if c, ok := s["ctx"].(map[string]any); ok {
 				if v, ok := c["ms"]; ok {
 					ms = num(v)
 				}
 				expired = c["expired"] == true
+				// the caller's context stays alive after the call returns (an application-wide context)
+				keepAlive = c["keepAlive"] == true
 			}
 			ctx, cancel := context.WithTimeout(context.Background(), time.Duration(ms)*time.Millisecond)
 			if expired {
@@ -770,7 +773,11 @@ func (r *runner) run() {
 				cancel()
 				return
 			}
-			cancel()
+			if keepAlive {
+				defer cancel() // at the end of the script
+			} else {
+				cancel()
+			}
 			ret["ms"] = int(time.Since(t0) / time.Millisecond)
 			if e, ok := s["exp"]; ok {
 				ret["exp"] = e
